@@ -1194,36 +1194,27 @@ func (db *DB) Repair(of Object) (err error) {
 		return
 	}
 
-	// we re-index missing objects in index
 	if uuids, err = uuidsFromDir(dir); err != nil {
 		return
 	}
 
-	// we re-index missing uuids
+	// the index is rebuilt from the object files: objects which are not
+	// indexed get indexed, entries without file disappear and entries of
+	// indexed objects hold the values found in their file (a crash between
+	// the rewrite of an object and the commit of the schema leaves old ones)
+	index := newIndex(s.Fields)
 	for uuid := range uuids {
-		// we don't re-index already indexed objects
-		if s.isUUIDIndexed(uuid) {
-			continue
-		}
-
 		// a new object is needed for every file: unmarshaling several
 		// files into the same object would merge their maps
 		if o, err = db.getByUUID(newIterator(db, of, nil).object(), uuid); err != nil {
 			return
 		}
 
-		if err = s.index(o); err != nil {
+		if err = index.insertOrUpdate(o); err != nil {
 			return
 		}
 	}
-
-	// we de-index missing objects
-	for uuid := range s.ObjectIndex.uuids {
-		if !uuids[uuid] {
-			// if object is not on disk and is in index
-			s.unindexByUUID(uuid)
-		}
-	}
+	s.ObjectIndex = index
 
 	return nil
 }
